@@ -218,9 +218,11 @@ func runC17(c *core.Ctx) {
 	// random longer ASCII and UTF-8 patterns and names
 	nrand := c.Pick(200000, 5000000)
 	asciiP := []string{"a", "b", "c", "x", "/", ".", "*", "*", "?", "[", "]", "^", "-", "\\", "d", "0", "9", "_", "A", "B", "M"}
-	utfP := append(append([]string{}, asciiP...), "é", "ß", "日", "本", "𝄞", "😀", "ж")
+	// incl. the code points at the encoding-length boundaries and U+FFFD (a valid character whose
+	// decoded value is the decoder's error value)
+	utfP := append(append([]string{}, asciiP...), "é", "ß", "日", "本", "𝄞", "😀", "ж", "\ufffd", "\u0080", "\u07ff", "\u0800", "\uffff", "\U00010000", "\U0010ffff")
 	asciiN := []string{"a", "b", "c", "x", "/", ".", "d", "0", "9", "_", "-", "]", "[", "*", "?", "\\", "^", "A", "B", "M"}
-	utfN := append(append([]string{}, asciiN...), "é", "ß", "日", "本", "𝄞", "😀", "ж")
+	utfN := append(append([]string{}, asciiN...), "é", "ß", "日", "本", "𝄞", "😀", "ж", "\ufffd", "\u0080", "\u07ff", "\u0800", "\uffff", "\U00010000", "\U0010ffff")
 	rmatched := int64(0)
 	for i := 0; i < nrand; i++ {
 		if !c.Mine(i) {
@@ -289,7 +291,7 @@ func runC17(c *core.Ctx) {
 	// escapes, stars), observed through Set.Filter AND through the MATCH rule
 	ntok := c.Pick(150000, 3000000)
 	tmatched, viaRule := int64(0), int64(0)
-	letters := []string{"a", "b", "c", ".", "/", "x", "B", "M", "é", "日"}
+	letters := []string{"a", "b", "c", ".", "/", "x", "B", "M", "é", "日", "\ufffd", "\U0010ffff"}
 	for i := 0; i < ntok; i++ {
 		if !c.Mine(i) {
 			continue
